@@ -1027,7 +1027,7 @@ func (z *Decimal) SetFloat(x *big.Float) *Decimal {
 	}
 	z.acc = Exact
 	z.neg = x.Signbit()
-	if z.IsInf() {
+	if x.IsInf() {
 		z.form = inf
 		return z
 	}
